@@ -1,6 +1,6 @@
 //! family `bld`: MessageBuilder programs (C03, C11, C12, sealing for C04/C09)
 //!   bld cls=0 meth=1 tid=<24 hex> ops=a/Username/s=6162;r/8022/616263;m1/s:70617373;fp;own;clone;q/0006.8022/s:70617373;w/40/aa;t
-use crate::fam_msg::{parse_creds, rand_creds, rand_tid};
+use crate::fam_msg::{confusable_creds, parse_creds, rand_creds, rand_tid};
 use crate::fam_mtype::{cls_from, parse_err};
 use crate::typed::*;
 use crate::util::*;
@@ -312,7 +312,13 @@ pub fn gen_rt(rng: &mut Rng, count: usize, thorough: bool, out: &mut Vec<String>
             }
             ops.push(add_op(rng, &mut used, false));
         }
-        let cred = rand_creds(rng);
+        // sometimes the credentials and the "other key" are a confusable pair (same key material text, different kind)
+        let (cred, other) = if rng.chance(1, 5) {
+            let (a, b) = confusable_creds(rng);
+            if rng.chance(1, 2) { (a, b) } else { (b, a) }
+        } else {
+            (rand_creds(rng), rand_creds(rng))
+        };
         let seal = i % 4;
         if seal == 1 || seal == 3 {
             ops.push(format!("m1/{}", cred));
@@ -334,7 +340,9 @@ pub fn gen_rt(rng: &mut Rng, count: usize, thorough: bool, out: &mut Vec<String>
         ops.push(format!("wp/{}/{}", fill, if seal == 0 { "-".to_string() } else { cred.clone() }));
         if seal != 0 {
             // a different key must not validate
-            ops.push(format!("q/-/{}", rand_creds(rng)));
+            ops.push(format!("q/-/{}", other));
+            // and the right key still does afterwards
+            ops.push(format!("q/-/{}", cred));
         }
         out.push(format!("{} ops={}", header(rng), ops.join(";")));
     }
